@@ -375,4 +375,6 @@ SUBS.append(Sub("long-runs-all-dtypes", run_block, kind="enum", enumerate=specs.
 SUBS.append(Sub("long-tracks", run_block, strategy=specs.long_block_case, budget=(16, 400), shards=(8, 16),
                 rule="blocks with 1-2 tracks of 257 .. 131079 frames; gaps that start or end exactly at 256 / 1024 / 4096 / 8192 / 16384 / 65536 / 131072, "
                      "every second..fifth frame missing (thousands of runs), sparse gaps; all input dtypes / byte orders / layouts"))
+from ..core import optimised_child_sub  # noqa: E402
+SUBS.append(optimised_child_sub("C05", ["extreme-values", "boundary-masks"]))
 TIME_BUDGET = {"quick": 120, "thorough": 1500}
